@@ -3617,17 +3617,28 @@ impl Interpreter {
         self.root_guard.guard(module_env.clone());
         self.env = module_env.cheap_clone();
 
-        // Set up import bindings before bytecode execution
-        self.setup_import_bindings(&program)?;
-
-        // Execute the module body using bytecode
-        let result = self.execute_program_bytecode(&program);
+        // Set up import bindings before bytecode execution, then execute the module body
+        let result = match self.setup_import_bindings(&program) {
+            Ok(()) => self.execute_program_bytecode(&program),
+            Err(error) => Err(error),
+        };
 
         // Restore environment
         self.env = saved_env;
 
-        // Handle errors
-        result?;
+        // Handle errors: the module never came to exist. Its environment must not stay rooted
+        // for ever (every failed import would add one), what it had exported so far is dropped
+        // and the importer's own export table is put back.
+        if let Err(error) = result {
+            // (create_module_environment allocates from the root guard and the environment was
+            // rooted once more above: release every root it has there)
+            while self.root_guard.unguard(&module_env) {}
+            let failed: Vec<_> = self.exports.drain().collect();
+            let failed_objects = Self::exported_objects(&failed);
+            self.release_exported_objects(&failed_objects);
+            self.exports = saved_exports;
+            return Err(error);
+        }
 
         // Create module namespace object from exports
         let module_obj = self.create_object(guard);
